@@ -45,7 +45,7 @@ pub struct Step {
 
 /// first line: the three probed variables, hex encoded (`S:<hex>` set, `U` unset), so that values with
 /// newlines, quotes or non-ASCII text are compared exactly; further lines: the other state classes
-const PROBE: &str = r#"printf 'VARS %s|%s|%s\n' "$( [ -n "${SCRUT_VERIF_INHERITED+s}" ] && { printf 'S:'; printf %s "$SCRUT_VERIF_INHERITED" | od -An -v -tx1 | tr -d ' \n'; } || printf U )" "$( [ -n "${X+s}" ] && { printf 'S:'; printf %s "$X" | od -An -v -tx1 | tr -d ' \n'; } || printf U )" "$( [ -n "${Y+s}" ] && { printf 'S:'; printf %s "$Y" | od -An -v -tx1 | tr -d ' \n'; } || printf U )"; declare -p ARR 2>/dev/null || echo "ARR unset"; declare -p MAP 2>/dev/null || echo "MAP unset"; if declare -F f >/dev/null; then f; else echo "f undefined"; fi; alias ll 2>/dev/null || echo "ll unaliased"; shopt -p extglob; set -o | grep -E '^(pipefail|nounset|noglob) '; pwd; dirs; export -p | grep -cE ' (X|Y)='; declare -p | grep -E '^declare -[-a-zA-Z]* (NB_[A-Za-z0-9_]*|[A-Za-z0-9_]*_NB)=' | sort"#;
+const PROBE: &str = r#"printf 'VARS %s|%s|%s\n' "$( [ -n "${SCRUT_VERIF_INHERITED+s}" ] && { printf 'S:'; printf %s "$SCRUT_VERIF_INHERITED" | od -An -v -tx1 | tr -d ' \n'; } || printf U )" "$( [ -n "${X+s}" ] && { printf 'S:'; printf %s "$X" | od -An -v -tx1 | tr -d ' \n'; } || printf U )" "$( [ -n "${Y+s}" ] && { printf 'S:'; printf %s "$Y" | od -An -v -tx1 | tr -d ' \n'; } || printf U )"; declare -p ARR 2>/dev/null || echo "ARR unset"; declare -p MAP 2>/dev/null || echo "MAP unset"; if declare -F f >/dev/null; then f; else echo "f undefined"; fi; if declare -F g >/dev/null; then g 42; else echo "g undefined"; fi; alias ll 2>/dev/null || echo "ll unaliased"; shopt -p extglob; set -o | grep -E '^(pipefail|nounset|noglob) '; pwd; dirs; export -p | grep -cE ' (X|Y)='; declare -p | grep -E '^declare -[-a-zA-Z]* (NB_[A-Za-z0-9_]*|[A-Za-z0-9_]*_NB)=' | sort"#;
 
 fn step_pool() -> Vec<Step> {
     let mut v = step_pool_raw();
@@ -92,6 +92,8 @@ fn step_pool_raw() -> Vec<Step> {
         s("f() { echo \"f says ${X-none}\"; }", "function"),
         s("f() { local a=1; g() { echo inner; }; g; echo outer; }", "function-nested"),
         s("unset -f f", "function-unset"),
+        // a function whose body needs `extglob` to be PARSED: the carrier must restore the option before the function
+        s("shopt -s extglob\ng() { case \"$1\" in +([0-9])) echo num;; *) echo other;; esac; }", "function-extglob"),
         s("alias ll='echo aliased'", "alias"),
         s("unalias ll 2>/dev/null || true", "alias-unset"),
         s("shopt -s extglob", "shopt"),
